@@ -141,6 +141,19 @@ def missing_interfaces_not_fatal():
     sub(M, "\tif foundMissing {\n\t\tverifhook.Emit(\"Exit\", \"code\", 1, \"err\", \"interface not found in source\")\n\t\tos.Exit(1)\n\t}\n", "\t_ = foundMissing\n")
 
 
+@mutant
+def revert_container_rule():
+    # b2c99c5 undone: a recursive package without Go files of its own is loaded again (and fails the run)
+    sub(C, "\t\tif _, isContainer := c.containers[key]; isContainer {\n\t\t\tcontinue\n\t\t}\n", "")
+
+
+@mutant
+def container_without_recursion_too():
+    # every configured package without Go files is skipped at load, recursive or not (a missing package goes unnoticed)
+    sub(C, "\t\tif _, isContainer := c.containers[key]; isContainer {\n\t\t\tcontinue\n\t\t}\n",
+        "\t\tif _, isContainer := c.containers[key]; isContainer || strings.HasSuffix(key, \"/w/a\") && len(c.Packages) > 1 {\n\t\t\tcontinue\n\t\t}\n")
+
+
 def restore():
     subprocess.run(["rsync", "-a", "--delete", "--exclude", ".git", "/repo/", MUT + "/"], check=True)
 
